@@ -170,7 +170,7 @@ def run_direct(case, stats):
         return viol, where
     if rng.random() < 0.2:
         # the backend refuses the interface: connect() fails; afterwards close() must work and the transport must count as closed
-        be.call_faults["claimInterface"] = rng.choice(["busy", "nodevice", "io"])
+        be.call_faults["claimInterface"] = rng.choice(["busy", "nodevice", "io", "notfound", "access", "other", "notfound"])
         stats["failed_connects"] += 1
         try:
             t.connect(None)
@@ -292,10 +292,15 @@ def run_direct(case, stats):
             stats["use_after_close_checked"] += 1
         except Exception as e:  # noqa
             viol.append({"mechanism": "use-after-close", "detail": "%s: %s after close() raised %s: %s" % (where, fn.__name__, type(e).__name__, e)})
-    # reconnect works
-    t.connect(None)
-    k = t.bulk_write(b"", 0.1) if False else None
-    t.close()
+    # reconnect works (a new handle: the kernel driver, if any, is bound again and the interface has to be claimed again)
+    try:
+        t.connect(None)
+        k = t.bulk_write(b"x", 0.1)
+        if k != 1:
+            viol.append({"mechanism": "reconnect", "detail": "%s: after close() and connect(), bulk_write(b'x') returned %r" % (where, k)})
+        t.close()
+    except Exception as e:  # noqa
+        viol.append({"mechanism": "reconnect", "detail": "%s: close() then connect() and a write on the same transport object raised %s: %s" % (where, type(e).__name__, str(e)[:100])})
     return viol, where
 
 
